@@ -291,6 +291,7 @@ func newCtx(p *Prog, prop, tier string) *Ctx {
 }
 
 func (c *Ctx) add(rule, key, pos, status, detail string, nontrivial bool) {
+	key = strings.Join(strings.Fields(key), "_") // keys never contain blanks (KNOWN_FINDINGS is blank-separated)
 	full := rule + ":" + key
 	if c.seen[full+"|"+status+"|"+detail] {
 		return
